@@ -44,14 +44,28 @@ def run(run):
     run.explanation = EXPLANATION
     run.assumptions += ["numpy: a[::-1] reverses the first axis"]
     run.undecided_clauses += ["numerical values produced by the sampler callables"]
-    for r, n in (("C06.R1", 1), ("C06.R2", 1), ("C06.R2b", 7), ("C06.R3", 5), ("C06.R4", 1), ("C06.R5", 4), ("C06.R6", 1)):
+    for r, n in (("C06.R1", 1), ("C06.R2", 1), ("C06.R2b", 7), ("C06.R3", 5), ("C06.R4", 1), ("C06.R5", 4), ("C06.R6", 1), ("C06.R7", 6)):
         run.floor(r, n)
     _r1_r2(run)
     parity.check(run, "C06.R2b", skip_classes=("ToastSampler",))
     _r2b_sampler(run)
     _r3(run)
+    # ... and on the way there: whoever has the coordinate system in hand (builder, pyramid, sampling entry points) passes it on
+    from . import toastgeom
+    toastgeom.coordsys_forwarding(run, "C06.R3", only_callers=None)
     _r4(run)
     _r5(run)
+    # updating mode stores the sampler's values through update_into_maskable_buffer: exactly the defined source pixels are
+    # copied, per mode (C15's convention rule, evaluated per mode; reported here as a premise)
+    from . import C15 as c15
+    from . import common as _common
+
+    def conv(sub):
+        members = c15._enum_members(sub.project)
+        if len(members) >= 8:
+            chains = c15._r1_chains(sub, members)
+            c15._r2_conventions(sub, members, chains)
+    _common.delegate(run, "C06.R7", "C15", conv, only_rules={"C15.R2"}, note="premise of 'updating mode writes the sampler's values'")
     # the pixel centres handed to the sampler are those of *this* tile in *this* coordinate system: no remembered grid
     # keyed by less than what determines it
     from . import memo
